@@ -8,6 +8,7 @@ import (
 	"testing"
 	"unicode/utf8"
 
+	"github.com/hujm2023/go-sms-protocol/datacoding"
 	g "github.com/hujm2023/go-sms-protocol/datacoding/gsm7encoding"
 	"golang.org/x/text/transform"
 	"pgregory.net/rapid"
@@ -69,6 +70,10 @@ func checkRune(c RuneCase) *vk.Violation {
 		}
 		if g.IsValidGSM7String(s) != ok {
 			v = vk.Violf("IsValidGSM7String/agreement", c, "IsValidGSM7String(U+%04X) = %v, in alphabet: %v", r, !ok, ok)
+			return
+		}
+		if datacoding.CanEncodeByGSM7(s) != ok {
+			v = vk.Violf("CanEncodeByGSM7/agreement", c, "datacoding.CanEncodeByGSM7(U+%04X) = %v, in alphabet: %v", r, !ok, ok)
 			return
 		}
 		if ok {
@@ -189,7 +194,7 @@ func checkText(c TextCase) *vk.Violation {
 			v = vk.Violf("PackedEncoder/agreement", c, "packed transformer encoder(%q) = %x, %v; Pack(Encode(.)) = %x", txt, pk, e3, ref.GSMPack(want))
 			return
 		}
-		if (len(g.ValidateGSM7String(txt)) == 0) != (werr == nil) || g.IsValidGSM7String(txt) != (werr == nil) {
+		if (len(g.ValidateGSM7String(txt)) == 0) != (werr == nil) || g.IsValidGSM7String(txt) != (werr == nil) || datacoding.CanEncodeByGSM7(txt) != (werr == nil) {
 			v = vk.Violf("validators/agreement", c, "validators disagree with Encode on %q", txt)
 			return
 		}
